@@ -288,11 +288,12 @@ def many_objects_family(quick):
     """N allocations with no function return in between, then fresh heap values held only by a half-built literal /
     argument list / operand, then more allocations: the literal still holds what was written"""
     out = []
-    for n in ((1000, 4095, 4096, 4097, 9000) if quick else (10, 255, 256, 257, 1023, 1024, 1025, 4094, 4095, 4096, 4097, 4098, 8191, 8192, 8193, 16384, 16385, 40000, 65535, 65536, 65537, 70000)):
+    for n in ((1000, 4095, 4096, 4097, 9000, 65535, 65536, 65537, 70000) if quick else (10, 255, 256, 257, 1023, 1024, 1025, 4094, 4095, 4096, 4097, 4098, 8191, 8192, 8193, 16384, 16385, 40000, 65535, 65536, 65537, 70000, 131072, 200000)):
         tail = "stel j = 0; zolang j < 60 { j += 1; stel u = 3.0 + 1.0; stel w = \"vul\" }"
         out.append(("objects:literal:%d" % n, "stel i = 0; zolang i < %d { i += 1; stel t = [i] } stel punt = [2500.5 + 2500.25, \"tekst\", [0.5 + 0.25], 10000 + 1]; stel alias = punt; stel nest = [punt]; %s; stel binnen = punt[2]; stel buiten = nest[0]; [punt[0], punt[1], binnen[0], alias[0], buiten[3]]" % (n, tail),
                     [5000.75, "tekst", 0.75, 5000.75, 10001]))
         out.append(("objects:args:%d" % n, "functie k(a, b, c) { [a, b, c] } stel i = 0; zolang i < %d { i += 1; stel t = \"s\" } stel r = k([0.25 + 0.5], \"y\", 1.5 * 3.0); %s; r" % (n, tail), [[0.75], "y", 4.5]))
+        out.append(("objects:late-and-call:%d" % n, "functie niets() { stel z = [0.5]; 0 }; stel i = 0; zolang i < %d { i += 1; stel t = [i] } stel laat = [1.5 + 1.0, \"laat\", [2.5 + 1.0], 3.5 + 1.0]; niets(); stel vers = [9.25, 8.25, 7.25]; niets(); stel in = laat[2]; [laat[0], laat[1], in[0], laat[3], vers[2]]" % n, [2.5, "laat", 3.5, 4.5, 7.25]))
         out.append(("objects:floats:%d" % n, "stel i = 0; stel acc = 0.0; zolang i < %d { i += 1; acc = acc + 0.5 } stel l = [[acc], [acc + 1.0]]; %s; stel l0 = l[0]; stel l1 = l[1]; [l0[0], l1[0]]" % (n, tail), [n * 0.5, n * 0.5 + 1.0]))
         out.append(("objects:in-function:%d" % n, "functie bouw(n) { stel i = 0; stel keep = [1.5]; zolang i < n { i += 1; stel t = [i, 0.5 + 0.5] } stel l = [keep[0] + 1.0, [\"x\"], keep]; l } stel r = bouw(%d); %s; stel r1 = r[1]; stel r2 = r[2]; [r[0], r1[0], r2[0]]" % (n, tail), [2.5, "x", 1.5]))
     return out
@@ -485,8 +486,9 @@ def stray_jump_family(quick, rng):
     if quick:
         shapes = [s for s in shapes if len(s) <= 3] + rng.sample([s for s in shapes if len(s) == 4], 40)
     for sh in shapes:
+        pres = ["", "functie h_() { 1 }; h_();", "stel z_ = 0; zolang z_ < 1 { z_ += 1 };", "zolang nee { };", "stel g_ = functie(q) { q }; g_(1);"]
         for jump in ("stop", "volgende"):
-            body = "t += 1; %s; t += 100" % jump
+            body = "t += 1; %s %s; t += 100" % (pres[(len(out) // 2) % len(pres)] if len(sh) > 1 else rng.choice(pres), jump)
             for n, w in enumerate(reversed(sh)):
                 body = wrap[w](n, body)
             out.append("stel t = 0; %s; t" % body)
@@ -643,6 +645,13 @@ def special_values_family():
             out.append("functie f(x) { x %s 3 } f(%s)" % (op, a))
             out.append("functie f(x) { 3 %s x } f(%s)" % (op, a))
             out.append("functie f(x, y) { x %s y } f(%s, %s)" % (op, a, a))
+    # every index from far below to far above the sequence, read and written, on arrays and on texts (single- and multi-byte)
+    for base in ("[10, 20, 30]", "\"abc\"", "\"aé€\"", "[]", "\"\""):
+        for idx in list(range(-6, 7)) + [-65536, 65536, -4294967296, 4294967296, -1152921504606846975, 1152921504606846975]:
+            i_src = str(idx) if idx >= 0 else "(0 - %d)" % -idx
+            out.append("stel s = %s; s[%s]" % (base, i_src))
+            out.append("stel s = %s; s[%s] = %s; s" % (base, i_src, "\"y\"" if base.startswith("\"") else "5"))
+            out.append("functie f(s, i) { s[i] = %s; s[i] } f(%s, %s)" % ("\"é\"" if base.startswith("\"") else "[1]", base, i_src))
     return out
 
 
@@ -857,3 +866,177 @@ def nested_names_family(quick):
                 out.append("%s functie buiten(%s) { %s %s; [binnen(1), binnen(2)] } stel r = buiten(%s); [r, %s]" % (g, par, decl, body, arg, call))
                 out.append("%s functie buiten(%s) { %s stel f = %s; f(3) }; [buiten(%s), %s]" % (g, par, decl, body.replace("functie binnen", "functie", 1), arg, call))
     return out
+
+
+# ------------------------------------------------------------------------------------------------------------------
+# Sixth round: many names, text sizes, special constants, collections before AND after a store, everything again as the body
+# of a function.
+
+def many_names_family(quick):
+    """N distinct names in one scope, each with its own value: every name still means its own variable (names that differ
+    in case, in one letter, digits against letters, non-ASCII letters; classic hash-collision pairs included)"""
+    import itertools
+    out = []
+    alpha = "abAB01_é"
+    names = []
+    for n in (2, 3):
+        for p in itertools.product(alpha, repeat=n):
+            w = "".join(p)
+            if w[0] in "01":
+                continue
+            names.append(w)
+    names += ["an", "c0", "Aa", "BB", "ba", "cB", "Ċ", "AaAa", "BBBB", "AaBB", "BBAa", "x1", "x_1", "X1", "l", "I", "O0", "o0", "ß", "ss", "ä", "ä"[:1] + "e", "naam", "Naam", "NAAM"]
+    kw = {"als", "ja", "nee", "stel", "stop"}
+    names = [w for w in dict.fromkeys(names) if w not in kw and w.isidentifier()]
+    for size in ((60, len(names)) if quick else (10, 60, 300, len(names))):
+        ns = names[:size]
+        decl = " ".join("stel %s = %d;" % (w, i) for i, w in enumerate(ns))
+        probe = [ns[0], ns[-1], ns[len(ns) // 2], ns[len(ns) // 3]] + [w for w in ("an", "c0", "Aa", "BB", "ba", "cB") if w in ns]
+        exp = [ns.index(w) for w in probe]
+        total = sum(range(len(ns)))
+        out.append(("names:top:%d" % size, "%s [%s, %s]" % (decl, ", ".join(probe), " + ".join(ns)), exp + [total]))
+        out.append(("names:fn:%d" % size, "functie f() { %s [%s, %s] } f()" % (decl, ", ".join(probe), " + ".join(ns)), exp + [total]))
+        out.append(("names:params:%d" % min(size, 250), "functie f(%s) { [%s] } f(%s)" % (", ".join(ns[:250]), ", ".join(w for w in probe if w in ns[:250]), ", ".join(str(i) for i in range(len(ns[:250])))), [ns.index(w) for w in probe if w in ns[:250]]))
+        out.append(("names:fns:%d" % min(size, 200), " ".join("functie %s() { %d }" % (w, i) for i, w in enumerate(ns[:200])) + "; [%s]" % ", ".join(w + "()" for w in probe if w in ns[:200]), [ns.index(w) for w in probe if w in ns[:200]]))
+    return out
+
+
+def text_size_family(quick):
+    """texts of every length around the sizes something might be chunked in (8, 16, 32, 48, 64 ... bytes), with a multi-byte
+    character at every position: measured, indexed from both ends, edited, converted"""
+    out = []
+    fills = ["é", "€", "😀"]
+    lengths = list(range(0, 72)) + [95, 96, 97, 127, 128, 129, 255, 256, 257, 1000]
+    if quick:
+        lengths = list(range(20, 70, 1)) + [0, 1, 7, 8, 9, 127, 128, 129, 256]
+    for n in lengths:
+        for fi, f in enumerate(fills):
+            if quick and (n + fi) % 3:
+                continue
+            # ASCII text with one multi-byte character at the end / at the front / in the middle
+            for where in ("end", "front", "mid"):
+                if n == 0:
+                    t = ""
+                elif where == "end":
+                    t = "a" * (n - 1) + f
+                elif where == "front":
+                    t = f + "b" * (n - 1)
+                else:
+                    t = "c" * (n // 2) + f + "d" * (n - n // 2 - 1)
+                lit = nlast_quote(t)
+                if n == 0:
+                    out.append(("text:%d:%s" % (n, where), "stel s = %s; [lengte(s), s == \"\"]" % lit, [0, True]))
+                    break
+                out.append(("text:%d:%s:%d" % (n, where, fi), "stel s = %s; stel i = 0; stel k = 0; zolang i < lengte(s) { als s[i] == %s { k += 1 } i += 1 }; [lengte(s), s[-1], s[0], s[%d], k, i]" % (lit, nlast_quote(f), n - 1),
+                            [n, t[-1], t[0], t[-1], 1, n]))
+                out.append(("text:edit:%d:%s:%d" % (n, where, fi), "stel s = %s; s[-1] = \"Z\"; s[0] = \"%s\"; [lengte(s), s[-1], s[0]]" % (lit, f + f), [n + 1, "Z" if n > 1 else f, f] if n > 1 else [2, f, f]))
+        # conversions of long non-numeric text: an error value, whatever sits at whatever byte offset
+        for f in fills[: (1 if quick else 3)]:
+            t = "x" * n + f + " 12,50 per stuk"
+            out.append(("text:int:%d" % n, "int(%s)" % nlast_quote(t), ("ERRSET", ("ERR Argument", "ERR Type"))))
+            out.append(("text:float:%d" % n, "float(%s)" % nlast_quote(t), ("ERRSET", ("ERR Argument", "ERR Type"))))
+        out.append(("text:print:%d" % n, "print(\"{}|{}\", %s, %d); 0" % (nlast_quote("é" * n), n), ("OUT", "OK i0", "é" * n + "|%d" % n)))
+    return out
+
+
+def nlast_quote(t):
+    import nlast
+    return nlast.quote(t)
+
+
+def special_constants_family(quick):
+    """the constants an optimiser likes (0, 1, -1, 2, powers of two) next to a variable of EVERY type, in the fused forms:
+    the same value or the same error as with the constant held in a variable"""
+    out = []
+    vals = [("5", 5), ("(0 - 7)", -7), ("2.5", 2.5), ("\"vijf\"", "vijf"), ("ja", True), ("[1, 2]", [1, 2]), ("(als nee { 1 })", None), ("functie() { 1 }", "fn")]
+    ops = ["+", "-", "*", "/", "%", "<", "<=", ">", ">=", "==", "!="]
+    consts = [0, 1, 2, 4, 8, 16, 256, 65536, 2 ** 31, 2 ** 32, 2 ** 59]
+    return vals, ops, consts
+
+
+def run_special_constants(ctx, log):
+    vals, ops, consts = special_constants_family(ctx.quick)
+    srcs, pairs = [], []
+    for vs, _ in vals:
+        for op in ops:
+            for c in consts:
+                # fused (variable op literal / literal op variable inside a function) against generic (constant in a variable)
+                for fused, generic in (("functie f(x) { x %s %d } f(%s)" % (op, c, vs), "functie f(x, k) { x %s k } f(%s, %d)" % (op, vs, c)),
+                                       ("functie f(x) { %d %s x } f(%s)" % (c, op, vs), "functie f(x, k) { k %s x } f(%s, %d)" % (op, vs, c)),
+                                       ("functie f(x) { x %s= %d; x } f(%s)" % (op, c, vs) if op in "+-*/%" else None, "functie f(x, k) { x = x %s k; x } f(%s, %d)" % (op, vs, c))):
+                    if fused is None:
+                        continue
+                    pairs.append((len(srcs), len(srcs) + 1))
+                    srcs += [fused, generic]
+    obs = vlib.nlh("eval", ["2000 " + vlib.hexs(s) for s in srcs], tag=ctx.prop.lower() + "sc")
+    bad = 0
+    for a, b in pairs:
+        ctx.seen(("special-constant", srcs[a]))
+        ctx.count("special-constants")
+        if visible(obs[a]) != visible(obs[b]):
+            bad += 1
+            ctx.violate("an operator next to a special constant behaves differently from the same operator on the same values held in variables", source=srcs[a], original=srcs[b], observed=visible(obs[a])[:200], expected=visible(obs[b])[:200])
+    log("special constants: %d fused forms against their generic forms, %d differ" % (len(pairs), bad))
+
+
+def collect_store_collect_family(quick):
+    """a container survives a collection, THEN receives a fresh heap value, then more collections and allocations happen, then
+    it is read - at top level and with the store made by a callee, from the top level and from inside a function"""
+    out = []
+    fresh = [("1.5 + 2.0", 3.5), ("string(12)", "12"), ("[0.5 + 0.25]", [0.75])]
+    churn = "stel q = 0; zolang q < 30 { q += 1; stel afval = [9.25, \"afval\"] };"
+    for src, pv in fresh:
+        tag = "csc:" + type(pv).__name__
+        out.append((tag + ":top", "functie niets() { 0 }; stel rij = [0.5, 0.5, 0.5]; niets(); niets(); rij[1] = %s; 7; niets(); %s niets(); [rij[0], rij[1], rij[2]]" % (src, churn), [0.5, pv, 0.5]))
+        out.append((tag + ":callee", "functie niets() { 0 }; functie zet(r) { r[1] = %s; 7; 8 } stel rij = [0.5, 0.5, 0.5]; niets(); zet(rij); %s niets(); [rij[0], rij[1], rij[2]]" % (src, churn), [0.5, pv, 0.5]))
+        out.append((tag + ":callee-in-function", "functie niets() { 0 }; functie zet(r) { r[1] = %s; 7; 8 } functie hoofd() { stel rij = [0.5, 0.5, 0.5]; niets(); stel m = zet(rij); stel q = 0; zolang q < 30 { q += 1; stel afval = [9.25] } niets(); [rij[0], rij[1], rij[2], m] } hoofd()" % src, [0.5, pv, 0.5, 8]))
+        out.append((tag + ":nested-older", "functie niets() { 0 }; stel binnen = [0.5]; stel buiten = [binnen, 0.5]; niets(); binnen[0] = %s; 7; niets(); %s niets(); stel b = buiten[0]; [b[0], buiten[1]]" % (src, churn), [pv, 0.5]))
+        out.append((tag + ":global-from-function", "functie niets() { 0 }; stel rij = [0.5, 0.5]; functie vul() { rij[0] = %s; 7; 8 } niets(); vul(); %s niets(); vul(); niets(); [rij[0], rij[1]]" % (src, churn), [pv, 0.5]))
+        out.append((tag + ":returned-literal", "functie kop(n) { als n > 0 { antwoord kop(n - 1) } \"----\" } stel a = kop(2); a[0] = \"+\"; stel b = kop(0); [a, b, kop(3)]", ["+---", "----", "----"]))
+        out.append((tag + ":literal-to-builtin", "functie etiket() { stel s = string(\"abc\"); s } stel a = etiket(); a[0] = \"Xÿ\"; [a, etiket(), \"abc\", lengte(\"abc\")]", ["Xÿbc", "abc", "abc", 3]))
+        out.append((tag + ":literal-in-loop", "functie streep(n) { stel s = \"....\"; s[n] = \"#\"; s }; [streep(0), streep(1), streep(2), \"....\"]", ["#...", ".#..", "..#.", "...."]))
+    return out
+
+
+SCALE_PARTS.update({"names": many_names_family, "text": text_size_family, "csc": collect_store_collect_family})
+
+
+def run_scale_wrapped(ctx, log, parts, budget=30000000):
+    """the closed-form families once more with the whole program as the body of a function (locals instead of globals,
+    calls made from inside a function, one more activation on the stack)"""
+    fam = []
+    for p in parts:
+        for tag, src, exp in SCALE_PARTS[p](ctx.quick):
+            if isinstance(exp, tuple):
+                continue
+            fam.append((tag + ":as-function-body", "functie hoofd_() { %s } hoofd_()" % src, exp))
+    obs = vlib.nlh("eval", ["%d %s" % (budget, vlib.hexs(src)) for _, src, _ in fam], tag=ctx.prop.lower() + "scw", timeout=1800)
+    for (tag, src, exp), o in zip(fam, obs):
+        ctx.seen(("scale", tag))
+        ctx.count("scale-wrapped:" + tag.split(":")[0])
+        ok, want = scale_ok(o, exp)
+        if not ok and progcheck_head(o) == "ERR Syntax" and len(src) > 40000:
+            continue
+        if not ok and progcheck_head(o) == "ERR Reference" and "STEPS 0" in o:
+            ctx.count("scale-wrapped-not-judged")      # its functions call each other: as nested functions they cannot (no closures)
+            continue
+        if not ok:
+            ctx.violate("the same small program means something else as the body of a function (%s)" % tag, source=src if len(src) < 3000 else src[:1200] + " ...(%d characters)... " % len(src) + src[-1200:], observed=o[:300], expected=want, family=tag)
+    return fam
+
+
+# behaviours the documentation leaves open (DESIGN 4.3): the specification oracle is silent there, but the MODEL is not -
+# it follows the implementation, so a change of these behaviours still breaks the correspondence
+UNSPECIFIED_BUT_MODELLED = [
+    "stel v = 1; v = functie v(n) { n * 2 }; v(3)", "stel f = 0; { f = functie f(n) { n + 1 } } type(f)", "stel g = 5; functie zet() { g = functie g(n) { n * 2 }; 0 } zet(); type(g)",
+    "stel verdubbel = 0; { verdubbel = functie verdubbel(n) { n * 2 } } print(\"na blok: {}\", type(verdubbel)); verdubbel(21)", "stel x = functie g() { 1 }; g()", "stel a = [functie h() { 2 }]; h()",
+    "lengte([functie k() { 1 }, 2])", "functie buiten() { stel r = functie binnen(n) { n }; binnen(4) } buiten()", "functie f(a) { a } f(1, 2)", "functie f(a, b) { [a, b] } f(1)", "functie f(a, b) { stel c = 3; [a, b, c] } f(1, 2, 9)",
+    "stel x = x; x", "functie f() { stel y = y; y } f()", "{ stel a = 5 } stel b = b; b", "stel print = 1; print", "stel lengte = 2; lengte + 1", "antwoord 5", "1; antwoord 2; 3", "stel a = [1, als ja { stop }]",
+    "zolang ja { stel a = [1, als ja { stop }] }", "functie mk() { antwoord functie() { 1 } } mk() == mk()", "stel f = functie() { 1 }; stel g = functie() { 1 }; [f == g, f == f]", "functie dubbel(x) { x * 2 }(5)", "(functie drie(x) { x * 3 })(5)",
+]
+
+
+def run_unspecified(ctx, log):
+    obs = runcorr.run_corr(ctx, UNSPECIFIED_BUT_MODELLED, log, budget=20000, stages=("compile", "eval"), label="unspecified-but-modelled", shard_size=30)
+    for s_ in UNSPECIFIED_BUT_MODELLED:
+        ctx.seen(("unspecified", s_))
